@@ -1225,6 +1225,10 @@ class MemoryCache:
             entry = self.cache[cache_key]  # May raise KeyError
             if not entry.has_value:
                 raise KeyError()
+            if entry.memento.content_key != memento.content_key:
+                # The call was memoized again since this memento was obtained: the cached
+                # value is not the one this memento refers to
+                raise KeyError()
             self._mark_used(cache_key)
             return entry.value
         else:
@@ -1409,7 +1413,15 @@ class StorageBackendBase(StorageBackend, ABC):
             memento.content_key,
         )
         if self._memory_cache:
-            self._memory_cache.put(memento, result, has_result=True)
+            # The cache is keyed by call. Only complete the entry of this very memento: one
+            # obtained before the call was memoized again (or forgotten) must not bring the
+            # earlier result back.
+            fn_with_args = memento.invocation_metadata.fn_reference_with_args
+            cached = self._memory_cache.get_mementos(
+                [fn_with_args.fn_reference_with_arg_hash()]
+            )[0]
+            if cached is not None and cached.content_key == memento.content_key:
+                self._memory_cache.put(memento, result, has_result=True)
 
         return result
 
